@@ -9,7 +9,13 @@ use lightning_signer::chain::tracker::ChainTracker;
 use lightning_signer::channel::{ChannelBase, ChannelId, CommitmentType};
 use lightning_signer::lightning::types::payment::PaymentHash;
 use lightning_signer::monitor::ChainMonitor;
-use lightning_signer::node::Node;
+use lightning_signer::node::{Node, NodeConfig, NodeServices};
+use lightning_signer::persist::Persist;
+use lightning_signer::policy::simple_validator::SimpleValidatorFactory;
+use lightning_signer::signer::derive::KeyDerivationStyle;
+use lightning_signer::util::clock::ManualClock;
+use vls_persist::kvv::memory::MemoryKVVStore;
+use vls_persist::kvv::{JsonFormat, KVVPersister};
 use lightning_signer::tx::tx::{CommitmentInfo2, HTLCInfo2};
 use lightning_signer::txoo::proof::{ProofType, TxoProof};
 use lightning_signer::util::test_utils::*;
@@ -110,6 +116,16 @@ pub fn stream_block(tracker: &mut ChainTracker<ChainMonitor>, block: &Block) {
     }
 }
 
+fn world_services(persister: Arc<dyn Persist>) -> NodeServices {
+    NodeServices {
+        validator_factory: Arc::new(SimpleValidatorFactory::new()),
+        starting_time_factory: make_genesis_starting_time_factory(lightning_signer::bitcoin::Network::Testnet),
+        persister,
+        clock: Arc::new(ManualClock::new(std::time::Duration::from_secs(1_700_000_000))),
+        trusted_oracle_pubkeys: vec![],
+    }
+}
+
 pub enum StepResult {
     Ok,
     Err(String),
@@ -162,6 +178,8 @@ pub struct World {
     pub cb: u32,
     pub base_height: u32,
     pub filter_false_positives: u32,
+    pub persister: Arc<dyn Persist>,
+    pub seed: [u8; 32],
     /// per closing tx: (index of the output the harness built as ours, HTLC output indices it built)
     pub built: BTreeMap<u64, (Option<u32>, Vec<u32>)>,
     /// spender id -> [(vout of the closing tx it spends, input index)] for the tracked non-ours outputs
@@ -196,7 +214,17 @@ impl World {
             "l" => CommitmentType::Legacy,
             _ => CommitmentType::StaticRemoteKey,
         };
-        let (node, channel_id) = init_node_and_channel(TEST_NODE_CONFIG, TEST_SEED[1], setup.clone());
+        // a persisting node (so that the world can be restarted through `Node::restore_node`), set up exactly like
+        // the repo's `init_node_and_channel` otherwise
+        let persister: Arc<dyn Persist> = Arc::new(KVVPersister(MemoryKVVStore::new([5u8; 16]), JsonFormat));
+        let mut seed = [0u8; 32];
+        seed.copy_from_slice(&hex::decode(TEST_SEED[1]).unwrap());
+        let config = NodeConfig { network: lightning_signer::bitcoin::Network::Testnet, key_derivation_style: KeyDerivationStyle::Native, use_checkpoints: false, allow_deep_reorgs: false };
+        let node = Arc::new(Node::new(config, &seed, vec![], world_services(persister.clone())));
+        persister.new_node(&node.get_id(), &config, &*node.get_state()).unwrap();
+        persister.new_tracker(&node.get_id(), &node.get_tracker()).unwrap();
+        node.add_allowlist(&[]).unwrap();
+        let channel_id = init_channel(setup.clone(), node.clone());
         // what sign_onchain_tx does for the funding inputs
         node.with_channel(&channel_id, |chan| {
             chan.monitor.add_funding_inputs(&funding_tx);
@@ -207,6 +235,7 @@ impl World {
             let mut tracker = node.get_tracker();
             let inputs = funding_tx.input.iter().map(|i| i.previous_output).collect();
             tracker.add_listener_watches(&funding_outpoint, inputs);
+            persister.update_tracker(&node.get_id(), &tracker).unwrap();
         }
         // holder commitment 23 with our output and two offered HTLCs, known to the enforcement state
         let commit_num = 23u64;
@@ -221,6 +250,7 @@ impl World {
             chan.set_next_counterparty_commit_num_for_testing(commit_num + 1, cp_point);
             chan.enforcement_state.current_holder_commit_info =
                 Some(CommitmentInfo2::new(false, to_cp, to_holder, offered.clone(), vec![], feerate));
+            persister.update_channel(&node.get_id(), chan).unwrap();
             Ok(())
         })
         .unwrap();
@@ -299,7 +329,7 @@ impl World {
             ids.insert(t.compute_txid(), *k);
         }
         let base_height = node.get_tracker().height();
-        World { node, channel_id, funding_outpoint, txs, ids, blocks: vec![], cb: 0, base_height, filter_false_positives: 0, built: BTreeMap::from([(U, (Some(our), vec![h1.min(h2), h1.max(h2)])), (UC, (Some(uc_our), vec![])), (UR, (Some(ur_our), vec![ur_local])), (UN, (None, vec![]))]), htlc_spends: BTreeMap::from([(T1, vec![(h1, 0)]), (T2, vec![(h2, 0)]), (T12, vec![(h1, 0), (h2, 1)]), (JR, vec![(ur_local, 0)])]), ctype: ct.to_string() }
+        World { persister, seed, node, channel_id, funding_outpoint, txs, ids, blocks: vec![], cb: 0, base_height, filter_false_positives: 0, built: BTreeMap::from([(U, (Some(our), vec![h1.min(h2), h1.max(h2)])), (UC, (Some(uc_our), vec![])), (UR, (Some(ur_our), vec![ur_local])), (UN, (None, vec![]))]), htlc_spends: BTreeMap::from([(T1, vec![(h1, 0)]), (T2, vec![(h2, 0)]), (T12, vec![(h1, 0), (h2, 1)]), (JR, vec![(ur_local, 0)])]), ctype: ct.to_string() }
     }
 
     /// tx tokens `T<id>:<inputs>:<nOut>:<kind>`; the kind of the two closing transactions comes from
@@ -366,6 +396,18 @@ impl World {
 
     pub fn op_str(&self, o: &OutPoint) -> String {
         op_str_ids(&self.ids, o)
+    }
+
+    /// crash + `Node::restore_node` from the persister
+    pub fn restart(&mut self) -> StepResult {
+        let (node_id, entry) = self.persister.get_nodes().unwrap().into_iter().next().unwrap();
+        let seed = self.seed;
+        let p = self.persister.clone();
+        match catch_unwind(AssertUnwindSafe(|| Node::restore_node(&node_id, entry, &seed, world_services(p)))) {
+            Ok(Ok(n)) => { self.node = n; StepResult::Ok }
+            Ok(Err(e)) => StepResult::Err(format!("{:?}", e)),
+            Err(e) => StepResult::Panic(panic_msg(e)),
+        }
     }
 
     pub fn monitor(&self) -> ChainMonitor {
@@ -494,6 +536,7 @@ impl World {
             Ok(Err(e)) => StepResult::Err(format!("{:?}", e)),
             Ok(Ok(fp)) => {
                 if fp { self.filter_false_positives += 1; }
+                self.persister.update_tracker(&self.node.get_id(), &tracker).unwrap();
                 self.blocks.push(block);
                 StepResult::Ok
             }
@@ -543,6 +586,7 @@ impl World {
             Ok(Err(e)) => StepResult::Err(format!("{:?}", e)),
             Ok(Ok(fp)) => {
                 if fp { self.filter_false_positives += 1; }
+                self.persister.update_tracker(&self.node.get_id(), &tracker).unwrap();
                 self.blocks.pop();
                 StepResult::Ok
             }
